@@ -84,7 +84,7 @@ def run(tier, seed):
         from . import emitprops
         from .fsprops import build_cli
         build_cli()
-        et, en, ef, es, ed, efind, eq = emitprops.emit_run(tier, seed, d)
+        et, en, ef, es, ed, efind, eq = emitprops.emit_run(tier, seed, d, prior=2)   # every second case over a previous generation of another document
         emit_stats = dict(evaluations=et, distinct_nontrivial=en, files_compared_equal=eq, disagreements=len(ed))
         for cid, p, cls, msg, spec in efind:
             if p == 'C19':
